@@ -1325,18 +1325,22 @@ class Path:
 
     def ev_ListComp(self, n):
         r = self.comprehension(n.elt, n.generators, n)
+        if isinstance(r, Unknown):
+            return r
         if isinstance(r, Sym):
             return self.alloc(LObj(None, r))
         return self.alloc(LObj(r))
 
     def ev_GeneratorExp(self, n):
         r = self.comprehension(n.elt, n.generators, n)
-        if isinstance(r, Sym):
+        if isinstance(r, (Sym, Unknown)):
             return r
         return ConcIter(r)
 
     def ev_SetComp(self, n):
         items = self.comprehension(n.elt, n.generators, n)
+        if isinstance(items, Unknown):
+            return items
         if isinstance(items, Sym):
             raise Unsupported('set comprehension over a symbolic sequence')
         if all(self.is_hashable_conc(x) for x in items):
@@ -1345,6 +1349,8 @@ class Path:
 
     def ev_DictComp(self, n):
         pairs = self.comprehension(ast.Tuple([n.key, n.value], ast.Load()), n.generators, n)
+        if isinstance(pairs, Unknown):
+            return pairs
         if isinstance(pairs, Sym):
             raise Unsupported('dict comprehension over a symbolic sequence')
         d = {}
@@ -1368,6 +1374,10 @@ class Path:
         self.scope = [frame] + list(self.scope)
         try:
             self._comp(elt, gens, 0, out, pre_iter)
+        except _UnknownComprehension:
+            # skeleton profile: a comprehension over an uninterpreted iterable is uninterpreted
+            self.abstraction_used = True
+            return Unknown('comprehension')
         finally:
             self.scope = saved
         return out
@@ -1380,6 +1390,8 @@ class Path:
         it = pre_iter if (k == 0 and pre_iter is not None) else self.eval(g.iter)
         items = self.concrete_iter(it)
         if items is None:
+            if self.skeleton and isinstance(it, Unknown):
+                raise _UnknownComprehension()
             raise Unsupported(f'comprehension over symbolic iterable at {self.cur_loc}')
         for x in items:
             self.assign(g.target, x)
@@ -1728,6 +1740,10 @@ class Path:
         from . import models
 
         return models.seq_get(self, seq, i)
+
+
+class _UnknownComprehension(Exception):
+    pass
 
 
 class SliceV:
